@@ -451,6 +451,46 @@ fn cross_module_values(s: &mut Src) -> Vec<(String, String)> {
     vec![("entry.ts".to_string(), entry), ("e.ts".to_string(), lib)]
 }
 
+/// the same type name declared in several files of a directory grid (a/x.ts, a/y.ts, b/x.ts, b/y.ts), generic or not,
+/// all reaching one buildParsers call: generated names have to stay distinct whatever the paths share
+fn same_name_in_directories(s: &mut Src) -> Vec<(String, String)> {
+    let grid = ["a/x", "a/y", "b/x", "b/y", "a/b/x", "x"];
+    let n = s.range(2, grid.len());
+    let mut picked: Vec<&str> = vec![];
+    for g in grid {
+        if picked.len() < n && s.chance(3, 4) {
+            picked.push(g);
+        }
+    }
+    while picked.len() < 2 {
+        picked.push(grid[picked.len()]);
+    }
+    let name = *s.pick(&["Box", "A", "Item"]);
+    let generic = s.chance(2, 3);
+    let mut files = vec![];
+    let mut entry = String::new();
+    let mut ps = vec![];
+    for (i, g) in picked.iter().enumerate() {
+        let body = if generic {
+            match s.below(3) {
+                0 => format!("export type {}<T> = {{ v: T; tag: \"{}\" }};\n", name, g),
+                1 => format!("export interface {}<T> {{ v: T; tag: \"{}\" }}\n", name, g),
+                _ => format!("export type {}<T> = [T, \"{}\"];\n", name, g),
+            }
+        } else {
+            format!("export type {} = {{ tag: \"{}\" }};\n", name, g)
+        };
+        files.push((format!("{}.ts", g), body));
+        entry.push_str(&format!("import {{ {} as N{} }} from \"./{}\";\n", name, i, g));
+        let arg = *s.pick(&["string", "string", "number", "N0<string>"]);
+        ps.push(if generic { format!("P{}: N{}<{}>", i, i, arg) } else { format!("P{}: N{}", i, i) });
+    }
+    entry.push_str(&format!("parse.buildParsers<{{ {} }}>();\n", ps.join("; ")));
+    let mut out = vec![("entry.ts".to_string(), entry)];
+    out.extend(files);
+    out
+}
+
 fn wild_file(s: &mut Src, others: &[&str], with_build: bool) -> String {
     let mut out = wild_imports(s, others);
     let n = s.range(0, 5);
@@ -649,7 +689,7 @@ impl C04 {
             1 => vec!["int".into()],
             _ => crate::den::NUMBER_FORMATS.iter().map(|x| x.to_string()).chain(["age".to_string()]).collect(),
         };
-        let kind = s.weighted(&[4, 4, 2, 3, 1, 4, 2]);
+        let kind = s.weighted(&[4, 4, 2, 3, 1, 4, 2, 1]);
         let (files, kind_name): (Vec<(String, String)>, &str) = match kind {
             0 => (vec![("entry.ts".to_string(), wild_file(s, &["a", "b", "missing"], true))], "wild_single"),
             1 if !corp.is_empty() => {
@@ -672,6 +712,7 @@ impl C04 {
             }
             5 => (vec![("entry.ts".to_string(), sem_file(s))], "semantic_operators"),
             6 => (cross_module_values(s), "cross_module_values"),
+            7 => (same_name_in_directories(s), "same_name_in_directories"),
             _ => {
                 let txt = if corp.is_empty() { String::new() } else { corp[s.below(corp.len())].clone() };
                 (vec![("entry.ts".to_string(), txt)], "corpus_verbatim")
